@@ -179,7 +179,7 @@ def gen_case(rng, role, tier):
 
 def shards(tier, seed):
     n = {"quick": 16, "thorough": 64}[tier]
-    per = {"quick": 260, "thorough": 2000}[tier]
+    per = {"quick": 200, "thorough": 2000}[tier]
     return [{"role": "server" if i % 2 == 0 else "client", "n": per, "j": i} for i in range(n)]
 
 
